@@ -10,8 +10,8 @@
    (Index/ArrIndex.v, SliceRange.v, StrIndex.v, Shapes.v) mirror back/object.c and
    back/vmexec.c statement by statement and are tied to the tree by checks/c12.py.
    `…_refuted` theorems exhibit inputs on which the mirrored code does NOT have the property
-   (each witness is replayed on the real VM by the check); `…_partial` is the part of a
-   refuted statement that does hold. *)
+   (each witness is replayed on the real VM by the check; they are the known findings
+   range_deref:int-overflow and array_deref:extent-product-overflow). *)
 From Coq Require Import ZArith List Bool.
 From NV Require Import Index.W32 Index.ArrIndex Index.SliceRange Index.StrIndex Index.Shapes
   Index.IndexSpec Index.ArrIndexProofs Index.SliceRangeProofs Index.StrIndexProofs Index.ShapesProofs.
@@ -70,11 +70,12 @@ Print Assumptions dim_mult_overflow_refuted.
 
 (* ---- ranges and slices ----------------------------------------------------------------------- *)
 
-(* [a..b][c..d], all four direction cases, non-negative inner bounds, no int wrap *)
+(* [a..b][c..d], all four direction cases; a negative inner bound is refused by the guard, so the
+   only hypothesis left is that the int additions do not wrap when both bounds are >= 0 *)
 Theorem slice_range_denotes : forall a b c d rf rt oob,
-  is_s32 a -> is_s32 b -> 0 <= c -> 0 <= d -> compose_ok a c d ->
+  is_s32 a -> is_s32 b -> (0 <= c -> 0 <= d -> compose_ok a c d) ->
   get_slice_range a b c d = (rf, rt, oob) ->
-  (oob = false <-> c < range_len a b /\ d < range_len a b) /\
+  (oob = false <-> 0 <= c < range_len a b /\ 0 <= d < range_len a b) /\
   (oob = false ->
      range_len rf rt = range_len c d /\
      forall k, 0 <= k < range_len c d ->
@@ -83,15 +84,6 @@ Theorem slice_range_denotes : forall a b c d rf rt oob,
        range_lo a b <= range_nth rf rt k <= range_hi a b).
 Proof. exact SliceRangeProofs.slice_range_denotes. Qed.
 Print Assumptions slice_range_denotes.
-
-(* a negative inner bound is not refused: [2..5][-1..2] = [1..4] leaves [2..5] *)
-Theorem slice_range_negative_inner_refuted :
-  exists a b c d rf rt,
-    is_s32 a /\ is_s32 b /\ compose_ok a c d /\
-    get_slice_range a b c d = (rf, rt, false) /\
-    ~ (range_lo a b <= range_nth rf rt 0 <= range_hi a b).
-Proof. exact SliceRangeProofs.slice_range_negative_inner_refuted. Qed.
-Print Assumptions slice_range_negative_inner_refuted.
 
 (* an index beyond the end of a range near INT_MAX wraps and is accepted *)
 Theorem slice_range_overflow_refuted :
@@ -163,21 +155,15 @@ Print Assumptions slice_slice_assoc.
 
 (* ---- strings ----------------------------------------------------------------------------------- *)
 
-(* intended: a character is produced <-> 0 <= index < length.  What holds: *)
-Theorem string_index_guard_partial : forall s i,
+(* a character is produced <-> 0 <= index < length *)
+Theorem string_index_guard : forall s i,
   strlen s < two31 ->
-  (strlen s <= i -> string_deref (Some s) i = Exc (IndexOob (-1))) /\
+  (0 <= i < strlen s <-> exists k, string_deref (Some s) i = Ok k) /\
   (0 <= i < strlen s ->
-     string_deref (Some s) i = Ok i /\ exists c, string_char s i = Some c).
-Proof. exact StrIndexProofs.string_index_guard_upper. Qed.
-Print Assumptions string_index_guard_partial.
-
-(* what does not: vm_execute_string_deref has no `index < 0` guard; "hello"[-1] reads str[-1] *)
-Theorem string_index_guard_refuted :
-  exists s i, strlen s < two31 /\ is_s32 i /\ ~ (0 <= i < strlen s) /\
-              string_deref (Some s) i = Ok i /\ string_char s i = None.
-Proof. exact StrIndexProofs.string_index_guard_refuted. Qed.
-Print Assumptions string_index_guard_refuted.
+     string_deref (Some s) i = Ok i /\ exists c, string_char s i = Some c) /\
+  (~ (0 <= i < strlen s) -> string_deref (Some s) i = Exc (IndexOob (-1))).
+Proof. exact StrIndexProofs.string_index_guard. Qed.
+Print Assumptions string_index_guard.
 
 (* SLICE_STRING, ascending and descending *)
 Theorem string_slice_exact : forall s from to,
@@ -258,7 +244,8 @@ Example string_slice_example :
   slice_string s 4 0 = Ok [111; 108; 108; 101; 104] /\
   slice_string s 2 2 = Ok [108] /\
   slice_string s 1 5 = Exc (IndexOob (-1)) /\ slice_string s (-1) 2 = Exc (IndexOob (-1)) /\
-  string_deref (Some s) 4 = Ok 4 /\ string_deref (Some s) 5 = Exc (IndexOob (-1)).
+  string_deref (Some s) 4 = Ok 4 /\ string_deref (Some s) 5 = Exc (IndexOob (-1)) /\
+  string_deref (Some s) (-1) = Exc (IndexOob (-1)).
 Proof. exact StrIndexProofs.string_slice_example. Qed.
 
 Example shape_conformance_example :
